@@ -1,20 +1,25 @@
 //! One module per property.
 
 pub mod c01;
+pub mod c02;
+pub mod c03;
 pub mod c05;
 pub mod c06;
 pub mod c07;
+pub mod c08;
 pub mod c13;
 pub mod common;
 pub mod c14;
 pub mod c15;
+pub mod c16;
+pub mod c17;
 pub mod c19;
 pub mod c20;
 
 use crate::engine::Property;
 
 pub fn all() -> Vec<Property> {
-    vec![c01::property(), c05::property(), c06::property(), c07::property(), c13::property(), c14::property(), c15::property(), c19::property(), c20::property()]
+    vec![c01::property(), c02::property(), c03::property(), c05::property(), c06::property(), c07::property(), c08::property(), c13::property(), c14::property(), c15::property(), c16::property(), c17::property(), c19::property(), c20::property()]
 }
 
 pub fn by_id(id: &str) -> Option<Property> {
